@@ -79,3 +79,51 @@ Fixpoint types_unique (content : list (nat * list nat)) : bool :=
   | [] => true
   | e :: r => negb (existsb (fun e' => Nat.eqb (fst e') (fst e)) r) && types_unique r
   end.
+
+(* ---------- which Go types are requested forms (plugin.go isFactoryType, FactoryPluginType;
+   registry.go LookupFactory / the expectation at the head of NewFactory) ---------- *)
+(* a result type: an interface (a plugin type, by number), the interface `error`, anything else *)
+Inductive tyk := TyIface (t : nat) | TyError | TyOther.
+(* a Go type as far as the registry looks at it: a func or not, its parameters, its results *)
+Record gotype := mkGt { gt_func : bool; gt_in : nat; gt_outs : list tyk }.
+Definition is_iface_k (k : tyk) : bool := match k with TyOther => false | _ => true end.
+Definition is_error_k (k : tyk) : bool := match k with TyError => true | _ => false end.
+
+(* isFactoryType, as the code goes *)
+Definition is_factory_type (t : gotype) : bool :=
+  let proper := gt_func t && Nat.eqb (gt_in t) 0 &&
+                (Nat.eqb (length (gt_outs t)) 1 || Nat.eqb (length (gt_outs t)) 2) in
+  if negb proper then false
+  else if negb (is_iface_k (nth 0 (gt_outs t) TyOther)) then false
+  else if Nat.eqb (length (gt_outs t)) 1 then true
+  else is_error_k (nth 1 (gt_outs t) TyOther).
+(* FactoryPluginType *)
+Definition factory_plugin_type (t : gotype) : option tyk :=
+  if is_factory_type t then Some (nth 0 (gt_outs t) TyOther) else None.
+
+(* specification: the two factory forms of the property - func() P and func() (P, error), P an interface *)
+Definition factory_form (t : gotype) : option (tyk * bool) :=
+  match t with
+  | mkGt true 0 [p] => if is_iface_k p then Some (p, false) else None
+  | mkGt true 0 [p; TyError] => if is_iface_k p then Some (p, true) else None
+  | _ => None
+  end.
+
+(* Registry.LookupFactory / Registry.NewFactory by requested type, on a registry holding [content] *)
+Definition plugin_type_no (k : tyk) : option nat := match k with TyIface t => Some t | _ => None end.
+Definition lookup_factory (content : list (nat * list nat)) (t : gotype) : bool :=
+  is_factory_type t &&
+  match plugin_type_no (nth 0 (gt_outs t) TyOther) with
+  | Some p => existsb (fun e => Nat.eqb (fst e) p) content
+  | None => false        (* nothing is ever registered for `error` here *)
+  end.
+Inductive freq := FqPanic | FqLookupErr | FqReaches (p : nat) (we : bool).
+Definition new_factory_request (content : list (nat * list nat)) (t : gotype) (n : nat) : freq :=
+  if negb (is_factory_type t) then FqPanic      (* expect(isFactoryType(factoryType), ...) *)
+  else match plugin_type_no (nth 0 (gt_outs t) TyOther) with
+       | Some p => match reg_get content p n with
+                   | Some _ => FqLookupErr
+                   | None => FqReaches p (Nat.eqb (length (gt_outs t)) 2)
+                   end
+       | None => FqLookupErr
+       end.
